@@ -234,6 +234,15 @@ def run(ctx) -> None:
                 mode_kw = dict(patch_name="pid")
             else:
                 mode_kw = dict(patch_centers=centers)
+            # parameters that the documented precedence (patch_centers > patch_name > patch_num) declares IGNORED must not
+            # cost anything either: no extra pass, no other chunking
+            if passes != 2 and n % 2 == 0:
+                if "patch_name" in mode_kw:
+                    mode_kw.update(patch_num=2, probe_size=10)
+                elif source != "random" and n % 4 == 0:
+                    mode_kw.update(patch_name="pid", patch_num=2)
+                else:
+                    mode_kw.update(patch_num=3, probe_size=10)
             W = 1
             if (source == "frame" and n % 2 == 0) or n % 5 == 0:
                 W = rng.choice([2, 3])
